@@ -114,12 +114,20 @@ def gen_world(rnd, n_rc=(3, 6), n_hint=(1, 2), n_fc=(1, 3), p_unknown_run=0.25, 
     return world, cer, (rc, hints, fcs, package_kinds)
 
 
-def gen_expression_pool(rnd, universe, size=(3, 8), depth=(0, 2), max_parts=3):
+PARTS_OF = {}
+"""expression string -> the strings of its single requirement-indicator parts (filled by gen_expression_pool)"""
+
+
+def gen_expression_pool(rnd, universe, size=(3, 8), depth=(0, 2), max_parts=3, parts_of=None):
     rc, hints, fcs, package_kinds = universe
     pool = []
     for _ in range(rnd.randint(*size)):
         parts = gen_ahb_parts(rnd, rnd.randint(*depth), rc, hints, fcs, package_kinds, max_parts=max_parts)
-        pool.append(render_ahb(parts, rnd, rnd.choice(["plain", "symbol", "upper"])))
+        style = rnd.choice(["plain", "symbol", "upper"])
+        text = render_ahb(parts, rnd, style)
+        pool.append(text)
+        if parts_of is not None:
+            parts_of[text] = [render_ahb([part], None, "plain" if style == "upper" else style) for part in parts]
     return pool
 
 
